@@ -306,14 +306,50 @@ func (x *Exec) memInject(mi *MIndex, meta map[string]any, pend map[string][2]flo
 	return meta
 }
 
+// copyMeta deep-copies a metadata / property map and keeps the Go types of its values (an
+// embedding caller may pass []string, int, map[string]string ...; the model normalises through
+// JSON, the engine gets the values as given).
 func copyMeta(m map[string]any) map[string]any {
 	if m == nil {
 		return nil
 	}
-	b, _ := json.Marshal(m)
-	var out map[string]any
-	json.Unmarshal(b, &out)
+	out := make(map[string]any, len(m))
+	for k, v := range m {
+		out[k] = copyVal(v)
+	}
 	return out
+}
+
+func copyVal(v any) any {
+	switch x := v.(type) {
+	case map[string]any:
+		if x == nil {
+			return x
+		}
+		return copyMeta(x)
+	case []any:
+		if x == nil {
+			return x
+		}
+		o := make([]any, len(x))
+		for i, e := range x {
+			o[i] = copyVal(e)
+		}
+		return o
+	case []string:
+		return append([]string(nil), x...)
+	case []int:
+		return append([]int(nil), x...)
+	case []float64:
+		return append([]float64(nil), x...)
+	case map[string]string:
+		o := make(map[string]string, len(x))
+		for k, e := range x {
+			o[k] = e
+		}
+		return o
+	}
+	return v
 }
 
 func (x *Exec) autoLink(index string, mi *MIndex, id string, meta map[string]any, lo, hi int64) {
